@@ -60,6 +60,25 @@ def digest(x):
     return hashlib.sha1(json.dumps(snap(x), sort_keys=True).encode()).hexdigest()[:16]
 
 
+def _loose(s):
+    """snap() picture with numeric scalars compared the way `==` compares them (1 == 1.0 == np.float64(1))."""
+    if isinstance(s, list):
+        if len(s) == 2 and isinstance(s[0], str) and isinstance(s[1], str) and \
+                s[0] in ('int', 'float', 'float64', 'float32', 'int64', 'int32', 'int16', 'int8', 'uint8'):
+            try:
+                return ['num', repr(float(s[1]))]
+            except ValueError:
+                return s
+        return [_loose(v) for v in s]
+    return s
+
+
+def state_digest(x):
+    """Digest of an object's observable content: `to_dict() == to_dict()` semantics (containers and array
+    dtypes strict, numeric scalars by value)."""
+    return hashlib.sha1(json.dumps(_loose(snap(x)), sort_keys=True).encode()).hexdigest()[:16]
+
+
 def flat(res):
     """Result of an evaluation -> list of floats (row-major)."""
     import numpy as np
@@ -430,8 +449,8 @@ def _mk_registry():
             pts = sorted(round(rnd.uniform(0.05, 0.6), 4) for _ in range(n - 1))
             return ([0.] + pts,)
         return (gen, lambda obj, v: setattr(obj, name, list(v)), lambda cn, v: cn.__setitem__(name, list(v)))
-    XI = [1]
-    XF = [0.7, 0.85, 1.0, 0.65, 0.93]
+    XI = [1, 0]
+    XF = [0.7, 0.85, 1.0, 0.65, 0.93, 0.1, 0.3, 0.45, 0.0]
     cov_ev = [Ev(m, {'T': 350.}, argname='x', pool_int=XI, pool_flt=XF) for m in
               ('get_UoRT', 'get_HoRT', 'get_GoRT', 'get_FoRT')] + \
              [Ev('get_UoRT', {}, argname='x', pool_int=XI, pool_flt=XF),
@@ -477,9 +496,9 @@ def _mk_registry():
     cu += [Ev('R', {'units': 'J/mol/K'}, argname=None), Ev('kb', {'units': 'eV/K'}, argname=None),
            Ev('h', {'units': 'J s'}, argname=None), Ev('T0', {'units': 'K'}, argname=None),
            Ev('wavenumber_to_temp', {}, argname='wavenumber', pool_int=[100, 1500, 3000],
-              pool_flt=[667.25, 1582.4, 3825.434], array=True),
+              pool_flt=[667.25, 1582.4, 3825.434]),
            Ev('wavenumber_to_energy', {}, argname='wavenumber', pool_int=[100, 1500, 3000],
-              pool_flt=[667.25, 1582.4, 3825.434], array=True)]
+              pool_flt=[667.25, 1582.4, 3825.434])]
     _register(Binding('constants', {}, {}, lambda cn: c, cu, state=const_state, call=const_call))
 
     # ------------------------------------------------------------------ reactions
@@ -544,14 +563,14 @@ def _mk_registry():
 
     def bep_state(hd):
         return {'bep': hd.bep.to_dict(), 'reaction': hd.rxn.to_dict()}
-    bep_ev = [Ev('get_E_act', {'units': 'kJ/mol'}), Ev('get_E_act', {'units': 'eV', 'rev': True}),
+    bep_ev = [Ev('get_E_act', {'units': 'kJ/mol'}), Ev('get_E_act', {'units': 'kcal/mol', 'rev': True}),
               Ev('get_EoRT_act'), Ev('get_HoRT'), Ev('get_UoRT'), Ev('get_GoRT'), Ev('get_SoR'), Ev('get_FoRT'),
               Ev('rxn.get_EoRT_act'), Ev('rxn.get_HoRT_act', {'rev': True}), Ev('rxn.get_GoRT_act'),
               Ev('rxn.get_A'), Ev('rxn.get_E_act', {'units': 'kcal/mol'})]
     _register(Binding(
         'BEP', {'slope': 0.5, 'intercept': 20., 'descriptor': 'delta_H'},
         {'slope': [0.5, 0.75, 0.25], 'intercept': [20., 35.5, 12.25],
-         'descriptor': ['delta_H', 'rev_delta_H', 'reactants_H', 'products_H', 'delta_E', 'rev_delta_E']},
+         'descriptor': ['delta_H', 'rev_delta_H', 'reactants_H', 'products_H']},
         b_bep, bep_ev, state=bep_state, call=bep_call, target=lambda hd: hd.bep))
 
     # ------------------------------------------------------------------ references
@@ -584,7 +603,7 @@ def _mk_registry():
     DESC = [{'H': 2, 'O': 1}, {'H': 4, 'C': 1}, {'O': 2}, {'C': 1, 'O': 2, 'H': 2}]
     rf_ev = [Ev('get_HoRT', {'descriptors': d}) for d in DESC] + \
             [Ev('get_GoRT', {'descriptors': DESC[0]}), Ev('get_HoRT', {'descriptors': DESC[3]}, argname=None),
-             Ev('get_descriptors_matrix', argname=None), Ev('get_descriptors', argname=None)]
+             Ev('get_descriptors_matrix', argname=None)]
 
     def pick_new(rnd, cn):
         return (rnd.choice(sorted(REFS)),)
@@ -681,7 +700,7 @@ def safe_call(b, obj, ev, kw):
 # ----------------------------------------------------------------------------------------------------
 # a session: one live object, the content a fresh object is built from, the caller's argument store
 # ----------------------------------------------------------------------------------------------------
-SENTINEL = [9, 9, 900]
+SENTINELS = {'nan': [9, 9, 900], 'inf': [9, 9, 901], '-inf': [-9, -9, 901]}
 
 
 def _d2(vals):
@@ -691,7 +710,7 @@ def _d2(vals):
         if finite(v):
             out.append(to_dec2(v))
         else:
-            out.append(SENTINEL)
+            out.append(SENTINELS['nan' if v != v else ('inf' if v > 0 else '-inf')])
             fin = False
     return out, fin
 
@@ -782,9 +801,9 @@ class Session:
         kw = copy.deepcopy(ev.fixed)
         if ev.argname is not None:
             kw[ev.argname] = arg                              # the caller's object itself
-        ab, sb = digest(kw), digest(b.state(self.obj))
+        ab, sb = digest(kw), state_digest(b.state(self.obj))
         st, res, raw = safe_call(b, self.obj, ev, kw)
-        aa, sa = digest(kw), digest(b.state(self.obj))
+        aa, sa = digest(kw), state_digest(b.state(self.obj))
         key = ev.tag + '#' + ab
         hit = key in self.seen
         self.seen.add(key)
@@ -794,14 +813,15 @@ class Session:
             fkw[ev.argname] = copy.deepcopy(arg0)
         try:
             fobj = b.build(copy.deepcopy(self.content))
-            fst, fres, _ = safe_call(b, fobj, ev, fkw)
+            fst, fres, fraw = safe_call(b, fobj, ev, fkw)
         except Exception as ex:                               # noqa
-            fst, fres = 'raise', '%s: %s' % (type(ex).__name__, str(ex)[:120])
+            fst, fres, fraw = 'raise', '%s: %s' % (type(ex).__name__, str(ex)[:120]), None
         e = {'ev': 'eval', 'cls': b.name, 'm': ev.tag, 'kind': kind, 'key': key, 'ab': ab, 'aa': aa, 'sb': sb,
              'sa': sa, 'st': st, 'fst': fst, 'epoch': self.epoch, 'arr': False, 'isint': kind in INT_KINDS,
              'flst': 'skip', 'flt': [], 'scal': [], 'sst': 'skip', 'k': 1, 'n': 1, 'fin': True}
         info = {'method': ev.method, 'kind': kind, 'unref': self.unrefreshed(), 'lastop': self.lastop, 'hit': hit,
-                'arg': snap(arg0), 'fixed': snap(ev.fixed)}
+                'arg': snap(arg0), 'fixed': snap(ev.fixed),
+                'dtype': str(getattr(arg0, 'dtype', type(arg0).__name__))}
         if st != 'ok':
             info['raised'] = res
         if fst != 'ok':
@@ -809,19 +829,24 @@ class Session:
         temps0 = elements_of(arg0, kind) if ev.argname is not None else []
         n = len(temps0) if kind in ARRAY_KINDS else 1
         e['n'] = n
-        vals = res if st == 'ok' else []
-        k = max(1, len(vals) // n) if n else 1
+        arr = kind in ARRAY_KINDS and ev.array
+
+        def project(flatvals, raw_):
+            """(values in element-major order, k) - the same projection for every call of this event"""
+            if arr and ev.per_element is not None and raw_ is not None:
+                try:
+                    rows = ev.per_element(raw_, n)
+                    return [v for r in rows for v in r], (len(rows[0]) if rows else 1)
+                except Exception:                             # noqa - wrong shape: the length clause fails
+                    return flatvals, 1
+            return flatvals, max(1, len(flatvals) // n) if n else 1
+        vals, k = project(res, raw) if st == 'ok' else ([], 1)
+        if fst == 'ok':
+            fres, _ = project(fres, fraw)
         scal, flt = [], []
-        if st == 'ok' and kind in ARRAY_KINDS and ev.array:
+        if st == 'ok' and arr:
             e['arr'] = True
             sst = 'ok'
-            if ev.per_element is not None:
-                try:
-                    rows = ev.per_element(raw, n)
-                    vals = [v for r in rows for v in r]
-                    k = len(rows[0]) if rows else 1
-                except Exception:                             # noqa - wrong shape: the length clause fails
-                    rows = None
             for t in temps0:
                 skw = copy.deepcopy(ev.fixed)
                 skw[ev.argname] = np.array([t]) if ev.array_only else float(t)
@@ -838,13 +863,7 @@ class Session:
             s2, r2, raw2 = safe_call(b, self.obj, ev, lkw)
             e['flst'] = s2
             if s2 == 'ok':
-                if ev.per_element is not None and kind in ARRAY_KINDS:
-                    try:
-                        flt = [v for r in ev.per_element(raw2, n) for v in r]
-                    except Exception:                         # noqa
-                        flt = r2
-                else:
-                    flt = r2
+                flt, _ = project(r2, raw2)
             else:
                 info['float_raised'] = r2
         e['k'] = k
@@ -865,7 +884,7 @@ class Session:
         e['scal'], f3 = _d2(scal)
         e['flt'], f4 = _d2(flt)
         e['fin'] = bool(f1 and f2 and f3 and f4)
-        flags = {'same': st == 'ok' and fst == 'ok' and vals_equal(res, fres), 'argsame': ab == aa,
+        flags = {'same': st == 'ok' and fst == 'ok' and vals_equal(vals, fres), 'argsame': ab == aa,
                  'statesame': sb == sa, 'raised': st != 'ok'}
         self.events.append(e)
         return e, info, flags
@@ -879,5 +898,7 @@ def vals_equal(a, b):
         if finite(x) != finite(y):
             return False
         if finite(x) and to_dec2(x) != to_dec2(y):
+            return False
+        if not finite(x) and repr(float(x)) != repr(float(y)):
             return False
     return True
